@@ -146,13 +146,16 @@ CLAIMS = {
           "enabled goroutine is assumed. Reply content is M3 (C04/C05/C12). The model is mirrored by hand and tied by the acceptor only.",
  },
  "C07": {
-  "technique": "Lean 4 proof (cancelled-never-runs invariant, at-most-one Rflush, immediate Rflush when the tag is absent) + acceptor correspondence with Tflush forced at every stage + wire/state oracle",
-  "text": "rflush_at_most_once, cancel_before_start_marks, cancelled_never_runs (once flush.mark has cancelled a request that had not passed "
-          "process.check, no continuation of any schedule hands it to the implementation), cancelled_gets_no_reply, "
-          "rflush_immediate_if_absent. The ordering clause (reply before Rflush) is checked on the implementation by the oracle in every "
-          "forced ordering and by the acceptor's comparison of flush targets/chains; its model theorem is future work (DESIGN).",
-  "note": TB + "reply_before_rflush is not yet a theorem (needs the flush-chain invariant); it is decided by the oracle and the acceptor. "
-          "Flushes aimed at shared-tag groups (K-6) and a Tflush flushing itself are outside the quantifier.",
+  "technique": "Lean 4 proof (flush-chain invariant over all ordinary schedules: reply before Rflush and never after; cancelled-never-runs; at-most-one Rflush; immediate Rflush when the tag is absent) + acceptor correspondence with Tflush forced at every stage + wire/state oracle",
+  "text": "reply_before_rflush_partial (invariant FI — 9 clauses about the flushreq chain, the recorded lookup target and the calls of Respond — "
+          "preserved by all 19 events under LS.tame: once an Rflush is queued, a reply to the request it flushes was queued before it, and "
+          "if there is none there never will be, in any continuation), rflush_at_most_once, cancel_before_start_marks, cancelled_never_runs "
+          "(no continuation of any schedule hands a request cancelled before process.check to the implementation), cancelled_gets_no_reply, "
+          "rflush_immediate_if_absent, lookup_finds_newest. Correspondence: Tflush at every stage and in pairwise orderings of schedule "
+          "points; every region log replayed through the model; order/cancel/state oracle on the wire.",
+  "note": TB + "The ordering theorem is partial: it covers schedules in which no Tflush is aimed at a Tflush and no waiting flushes are handed "
+          "over to a same-tag successor (LS.tame, stated in the theorem); flush of a flush and several flushes of one request are decided by "
+          "the oracle and the acceptor. K-6 shapes and a Tflush flushing itself are outside the quantifier.",
  },
  "C08": {
   "technique": "Lean 4 proof (enabledness of every worker/reply step in every state = no head-of-line blocking; shared-tag queueing) + acceptor correspondence + blocked-subset and tag-group oracles",
